@@ -424,3 +424,22 @@ package compile
 //@   loop 0 invariant len(looprange) == node_nchildren_of(nod, parse.NodeDeviation) && forall(i, 0, len(looprange), looprange[i] == devn(nod, i) && looprange[i] != nil)
 //@   loop 1 invariant devOK(devn(nod, outer(loopidx)+1), loopidx+1) && ghost("devChecked") == ghost("devApplied")
 //@   loop 1 invariant len(looprange) == ndevs(devn(nod, outer(loopidx)+1)) && forall(j, 0, len(looprange), looprange[j] == devs(devn(nod, outer(loopidx)+1), j) && looprange[j] != nil)
+
+// Inheritance while the schema tree is built (C14: "config false is inherited by every descendant and config true
+// beneath it is rejected; status can only weaken downwards"): whatever kind of statement is entered - choice and case
+// included - its own config / status statement is evaluated against the inherited value.
+//@ func (*Compiler).overrideInherited
+//@   requires c != nil && dataDef != nil
+//@   modifies *
+//@   ensures implies(node_child_by_type(dataDef, parse.NodeConfig) == nil, result.config == inherited.config)
+//@   ensures implies(node_child_by_type(dataDef, parse.NodeConfig) != nil, result.config == node_argbool(node_child_by_type(dataDef, parse.NodeConfig)) && implies(result.config, inherited.config))
+//@   ensures implies(node_child_by_type(dataDef, parse.NodeStatus) == nil, result.status == inherited.status)
+//@   ensures implies(node_child_by_type(dataDef, parse.NodeStatus) != nil, result.status >= inherited.status)
+
+// Which grouping a uses names (C12): a grouping of the module the uses is expanded in is looked up in the scope of
+// the node that holds the uses (local groupings included); a grouping of another module (prefixed) is that module's -
+// never a same-named grouping that happens to be in scope where the uses is written.
+//@ func (*Compiler).applyUsesToNode
+//@   requires c != nil && mod != nil && nod != nil && use != nil
+//@   modifies *
+//@   callsite @assertReferenceStatus group == node_grouping(ite(gmod == mod, nod, gmod), gname.Local)
